@@ -16,7 +16,8 @@ CHECKS = {
         text="Lean 4 theorems over all utility vectors / noise vectors / batch sizes (rand_argmax/rand_argmin optimality, tie reachability, "
         "simple_batch size/distinctness/NaN rows/order in both modes, error branches) about an executable model of _selection.py; "
         "the model is tied to the code on every run by bit-exact differential execution with numpy's captured noise/choice draws, "
-        "and the property oracle is evaluated on every implementation output.",
+        "and the property oracle is evaluated on every implementation output."
+        " Second tie (translation): harness/translate/pyselect.py re-translates rand_argmax, rand_argmin and simple_batch (method max; 1-d) from the current source into Lean (Gen/SelectionGen.lean) on every run; Lemmas/SelectionGen.lean proves them equal to the model for all inputs (rand_argmax_eq, rand_argmin_eq, simple_batch_max_eq), Props/SelectionGen.lean transfers randArgmax_is_max and simpleBatch_max_spec to the translated functions; the translated model is executed bit-exactly against the real functions (skaselgendriver).",
         design="§4 C18",
         technique="Lean 4 proof (induction over lists) + model/implementation correspondence via line-protocol driver",
     ),
